@@ -127,7 +127,13 @@ func init() {
 		{Name: "c07-loops", MinSteps: 1, MaxSteps: 3, Durs: []int64{0, 5}, Foreach: 60, Modes: []string{"err", "crash"}, PBad: 40, ErrOutput: true, MaxOutputs: 2},
 	}
 	register(&PropDef{ID: "C07",
-		Gen:   func(t *rapid.T) *Case { return genS1(t, "C07", c07, rapid.Bool().Draw(t, "adv")) },
+		Gen: func(t *rapid.T) *Case {
+			if rapid.IntRange(0, 2).Draw(t, "with_conn_faults") == 0 {
+				// connection-level misbehaviour: the stream dies mid-message, the deployed plugin lacks the step, closing fails
+				return genS2(t, "C07", c07[1:2], 0, 0, 50)
+			}
+			return genS1(t, "C07", c07, rapid.Bool().Draw(t, "adv"))
+		},
 		Check: s1Check("C07", OracleC07),
 	})
 
